@@ -163,15 +163,22 @@ class _RunnerIterator(iter_utils.MultiplexIterator[_ValueT]):
   def agg_result(self) -> tree.TreeMapView:
     return self._runner.get_result(self.agg_state or {})
 
-  def from_state(self, state: _IteratorState) -> _RunnerIterator:
-    return super().from_state(
-        state.input_states,
+  def from_state(
+      self,
+      state: _IteratorState,
+      data_sources: Sequence[Iterable[_ValueT]] | None = None,
+  ) -> _RunnerIterator:
+    """Recovers the iterator, optionally from already recovered inputs."""
+    kwargs = dict(
         runner=self._runner,
         ignore_error=self._ignore_error,
         with_result=self._with_result,
         with_agg_state=self._with_agg,
         state=state.agg_state,
     )
+    if data_sources is not None:
+      return self.__class__(data_sources=data_sources, **kwargs)
+    return super().from_state(state.input_states, **kwargs)
 
   @property
   def state(self) -> _IteratorState:
@@ -542,7 +549,12 @@ class _ChainedRunnerIterator(Iterable[_ValueT]):
     if isinstance(state, _IteratorState):
       assert len(self._iterators) == 1, f'{len(self._iterators)=}'
       state = {it.name: state for it in self._iterators}
-    iterators = [it.from_state(state[it.name]) for it in self._iterators]
+    iterators = []
+    for it in self._iterators:
+      # Each stage consumes the recovered iterator of the previous stage, so
+      # that the aggregates of the non-last stages keep being updated.
+      data_sources = [iterators[-1]] if iterators else None
+      iterators.append(it.from_state(state[it.name], data_sources))
     return _ChainedRunnerIterator(
         iterators,
         with_result=self._with_result,
